@@ -1,4 +1,4 @@
 From Verif Require Import Extract.C09.
 Require Import ExtrOcamlBasic.
-Extraction "c09_model.ml" c09_quote c09_mk_form c09_unquote_impl c09_unquote_int32 c09_sanitize
+Extraction "c09_model.ml" c09_quote c09_mk_form c09_unquote_impl c09_unquote_int32 c09_indent_tabs c09_set_indent c09_sanitize
   c09_decode c09_decode_last c09_encode c09_required_hash_count.
